@@ -122,11 +122,6 @@ theorem likelihood_ratio_single_qubit (ds : List Dist) (s : List Pauli) (i : Nat
     stringProb ds (s.set i τ) * d.get σ = stringProb ds s * d.get τ :=
   stringProb_set ds s i d σ τ hd hs
 
-/-- only letters of non-zero probability are proposed -/
-theorem proposal_letters (d : Dist) (σ : Pauli) :
-    σ ∈ proposalLetters d ↔ σ ≠ .I ∧ d.get σ ≠ 0 := by
-  cases σ <;> simp [proposalLetters, Dist.get]
-
 /-! ### the mask the code had before the fix does NOT normalise -/
 
 /-- with the Y mask `error[:n] == error[n:]` the four single-qubit probabilities sum to
